@@ -1,3 +1,25 @@
 #!/bin/sh
-# builds what checks need from files on disk only (offline)
-exit 0
+# Builds, offline and from files on disk only, what the checks would otherwise build on first use:
+#  - nightly dependency artefacts + MIR dumps of the crates under test (cached by source hash under /verif/.build)
+#  - the native replay crate (guard on)
+DIR="$(cd "$(dirname "$0")" && pwd)"
+export PYTHONPATH="$DIR/mirsmt:$DIR/props"
+export CARGO_NET_OFFLINE=true
+python3-vt - <<'PY'
+import sys, time
+import mirdump, native
+t = time.time()
+for crate, feats in (('ractor', ('cluster',)), ('ractor', ())):
+    try:
+        p, info = mirdump.load(crate, features=feats)
+        print('mir', crate, feats, info['bodies'], 'bodies', info['dump_s'], 's')
+    except Exception as e:
+        print('setup: MIR dump failed for', crate, feats, e)
+        sys.exit(1)
+try:
+    print('replay crate:', native.build())
+except Exception as e:
+    print('setup: replay build failed', e)
+    sys.exit(1)
+print('setup done in %.0fs' % (time.time() - t))
+PY
